@@ -128,11 +128,15 @@ _p("C09", "proof",
    "snapshot's membership / (index, term) already matches, restores only as follower; the response is a promise message (withheld until "
    "persistence). 'Every snapshot a leader sends is a committed prefix' and 'no fork' are monitored.", [])
 _p("C10", "proof",
-   "Proved (Props/C10.v): the propose-time gate (a change survives only if pendingConfIndex <= applied and the joint/leave shape fits, otherwise it "
-   "is replaced by an empty normal entry; surviving changes move pendingConfIndex), hup refuses while a committed change is unapplied, a new "
+   "Proved (Props/C10.v): the propose-time gate (a change survives only if pendingConfIndex <= applied, the joint/leave shape fits and the "
+   "current configuration accepts it in a dry run of the Changer on the decoded payload -- the F6 repair, C10_unacceptable_change_refused --, "
+   "otherwise it is replaced by an empty normal entry; surviving changes move pendingConfIndex), hup refuses while a committed change is unapplied, a new "
    "leader's pendingConfIndex is its last index, accepted changes keep the configuration invariants (C13), joint decisions use both halves (C12). "
    "'All nodes derive the same configurations' is monitored (configuration after index i compared across nodes).",
-   ["DisableConfChangeValidation = false for the gate lemma", "known finding F9 (ApplyConfChange after restore) is classified separately"])
+   ["DisableConfChangeValidation = false for the gate lemma", "Env.apply_before_snap_step (finding F9) is enforced by the generator"],
+   {"pure": {"confchange": {"tags": ["CD"]}},
+    "rule_extra": "confchange stream, tag CD: 1500 (thorough 30000) random ConfChange / ConfChangeV2 payloads (missing optional fields, large ids, "
+                  "contexts) decoded by proto.Unmarshal + AsV2 in /repo and by the model's decoder, which the propose-time gate uses"})
 _p("C11", "proof",
    "Proved (Props/C11.v): a leader that is not the sole voter and has not committed in its term only postpones a MsgReadIndex; reads are released "
    "exactly up to the joint quorum order statistic of acknowledged positions (C12); read bookkeeping is dropped on every reset; a leader that is "
@@ -151,7 +155,7 @@ _p("C13", "proof",
    "/repo and on the model, compares every result, and evaluates the property itself on every accepted result of the implementation "
    "(disjointness, staging, exactly the members have progress, an incoming voter remains, Simple alters at most one voter, input untouched, "
    "ConfState round trip).", [],
-   {"pure": {"confchange": {"tags": ["CC"]}},
+   {"pure": {"confchange": {"tags": ["CC", "CD"]}},
     "rule_extra": "confchange stream: every list of up to two changes over ids 1..4 as Simple and as EnterJoint (both auto-leave settings) from 6 "
                   "start configurations, plus 3000 (thorough 60000) random sequences of 2..9 operations"})
 _p("C14", "exploration",
